@@ -10,8 +10,10 @@ from pathlib import Path
 
 ROOT = Path(__file__).resolve().parent.parent
 SPECS = ROOT / "specs"
-WORK = ROOT / "work"
-EVID = ROOT / "evidence"
+# development aid: bin/mutant-audit-ns runs checks against a patched copy of /repo in a private mount namespace with its own
+# work / evidence directories (VERIF_WORK, VERIF_EVIDENCE_DIR); registered commands never set these
+WORK = Path(os.environ.get("VERIF_WORK") or (ROOT / "work"))
+EVID = Path(os.environ.get("VERIF_EVIDENCE_DIR") or (ROOT / "evidence"))
 HARNESS = ROOT / "harness"
 VH = WORK / "target" / "release" / "vh"
 REPO = Path("/repo")
